@@ -62,6 +62,24 @@ condition: (1 of sel_* or other) and not all of flt_* """, RID[3]),
     "underscore_sel": rule("Underscore selector", "sel: {a: 1}\n_x: {b: 2}\ncondition: sel or 1 of _*a"),
 }
 
+# rules that use a field as detection item field and in field references / the fields list (field names are tracked
+# per pipeline through them)
+RULES["fieldref"] = rule("Fieldref", """
+selection:
+  Image|endswith: cmd.exe
+  OriginalFileName|fieldref: Image
+condition: selection""", None, extra="name: nested_one_to_many\n")
+RULES["fieldref_many"] = rule("Fieldref many", """
+sel:
+  Image|endswith: cmd.exe
+  ParentImage|fieldref|endswith: Image
+  User|fieldref: TargetUser
+  CommandLine|contains: x
+flt:
+  TargetUser|fieldref: User
+  Image: y
+condition: sel and not flt""", None, extra="fields: [Image, User, CommandLine, TargetUser]\n")
+
 CORRELATION = {
     "corr_count": RULES["simple"] + "---\n" + """title: Count
 id: 0e95725d-7320-415d-80f7-004da920fc12
@@ -328,6 +346,72 @@ MSG_PIPELINES = {
 """,
 }
 
+# nested pipelines with one-to-many mappings followed by items gated on field-name level processing_item_applied
+PIPELINES["nest_applied"] = """name: nest applied
+priority: 10
+transformations:
+  - id: ecs_map
+    type: field_name_mapping
+    mapping: {Image: process, User: user, CommandLine: cmdline, fieldA: fa}
+  - id: nested
+    type: nest
+    items:
+      - id: fan_out
+        type: field_name_mapping
+        mapping:
+          process: [proc_a, proc_b, proc_c, proc_d]
+          user: [u1, u2, u3]
+          fa: [fa1, fa2]
+  - id: keyword_suffix
+    type: field_name_suffix
+    suffix: .keyword
+    field_name_conditions:
+      - type: processing_item_applied
+        processing_item_id: ecs_map
+"""
+PIPELINES["nest_applied_inner"] = """name: nest applied inner
+priority: 10
+transformations:
+  - id: outer_map
+    type: field_name_mapping
+    mapping: {Image: [img1, img2], TargetUser: tu, fieldB: [fb1, fb2, fb3]}
+  - type: nest
+    items:
+      - id: inner_a
+        type: field_name_mapping
+        mapping: {img1: [i1a, i1b, i1c], tu: [tu1, tu2], fb2: [x1, x2]}
+      - type: nest
+        items:
+          - id: inner_b
+            type: field_name_mapping
+            mapping: {i1b: [deep1, deep2, deep3], tu2: [tv, tw]}
+          - id: inner_prefix
+            type: field_name_prefix
+            prefix: 'in.'
+            field_name_conditions:
+              - type: processing_item_applied
+                processing_item_id: inner_a
+  - id: sfx_outer
+    type: field_name_suffix
+    suffix: '.o'
+    field_name_conditions:
+      - type: processing_item_applied
+        processing_item_id: outer_map
+  - id: sfx_inner
+    type: field_name_suffix
+    suffix: '.i'
+    field_name_conditions:
+      - type: processing_item_applied
+        processing_item_id: inner_b
+  - id: pre_not
+    type: field_name_prefix
+    prefix: 'n.'
+    field_name_cond_not: true
+    field_name_conditions:
+      - type: processing_item_applied
+        processing_item_id: inner_a
+"""
+
 VALIDATORS = {
     "all": {"validators": ["all"]},
     "some": {"validators": ["all", "-attacktag", "-d3_fendtag", "-tlptag", "-stptag"],
@@ -345,6 +429,43 @@ SEP_FILTERS = {
     "same1": filt("Sep same 1", RID[:2], "flt: {User: a}\ncondition: not 1 of them"),
     "same2": filt("Sep same 2", RID[:2], "flt: {Host: b}\ncondition: not 1 of flt*"),
 }
+
+
+def gen_nest_pipeline(rng, name):
+    """outer 1:1 / 1:n mapping with an id, a (possibly doubly) nested pipeline mapping the results one-to-many, later
+    outer items gated on field-name (and detection-item) level processing_item_applied conditions"""
+    import yaml
+    src = ["Image", "User", "CommandLine", "TargetUser", "OriginalFileName", "ParentImage", "fieldA", "fieldB"]
+    k = [0]
+
+    def targets(base, n):
+        k[0] += 1
+        return [f"{base.lower()}_{k[0]}{c}" for c in "abcd"[:n]]
+    cur = rng.sample(src, rng.randint(2, 5))
+    m0 = {f: (targets(f, 1)[0] if rng.random() < 0.6 else targets(f, rng.randint(2, 3))) for f in cur}
+    lvl1 = [t for v in m0.values() for t in ([v] if isinstance(v, str) else v)]
+    pick1 = rng.sample(lvl1, rng.randint(1, min(3, len(lvl1))))
+    m1 = {f: targets(f, rng.randint(2, 4)) for f in pick1}
+    inner = [{"id": "n_map", "type": "field_name_mapping", "mapping": m1}]
+    ids = ["o_map", "n_map"]
+    if rng.random() < 0.5:
+        lvl2 = [t for v in m1.values() for t in v]
+        m2 = {f: targets(f, rng.randint(2, 3)) for f in rng.sample(lvl2, rng.randint(1, min(2, len(lvl2))))}
+        inner.append({"type": "nest", "items": [{"id": "nn_map", "type": "field_name_mapping", "mapping": m2}]})
+        ids.append("nn_map")
+    items = [{"id": "o_map", "type": "field_name_mapping", "mapping": m0}, {"id": "nested", "type": "nest", "items": inner}]
+    for j in range(rng.randint(1, 3)):
+        it = {"id": f"gated{j}", "type": rng.choice(["field_name_suffix", "field_name_prefix"])}
+        it["suffix" if it["type"].endswith("suffix") else "prefix"] = f".g{j}" if it["type"].endswith("suffix") else f"g{j}."
+        cond = {"type": "processing_item_applied", "processing_item_id": rng.choice(ids)}
+        if rng.random() < 0.75:
+            it["field_name_conditions"] = [cond]
+            if rng.random() < 0.25:
+                it["field_name_cond_not"] = True
+        else:
+            it["detection_item_conditions"] = [cond]
+        items.append(it)
+    return yaml.safe_dump({"name": name, "priority": 10, "transformations": items}, sort_keys=False)
 
 
 def entry(eid, docs, pipelines=(), validators=None, fmt="default", separate=()):
@@ -389,6 +510,12 @@ def build_corpus(tier, rng):
         out.append(entry("msg-" + k, RULES["simple"] + "---\n" + RULES["multi_fields"] + "---\n" + RULES["regex_flags"] + "---\n" + b64, [M[k]]))
     out.append(entry("msg-convert-type-stack", allrules + "---\n" + b64, [M["convert_type"], P["add_condition"], P["vars"]]))
     out.append(entry("msg-to-dict-filters", b64 + "---\n" + RULES["simple"] + "---\n" + FILTERS["f_simple"], [M["values_twice"], P["chained"]]))
+    fr = RULES["fieldref"] + "---\n" + RULES["fieldref_many"] + "---\n" + RULES["simple"] + "---\n" + RULES["multi_fields"]
+    out.append(entry("nest-applied", fr, [P["nest_applied"]]))
+    out.append(entry("nest-applied-inner", fr, [P["nest_applied_inner"]]))
+    out.append(entry("nest-applied-both", fr, [P["nest_applied_inner"], P["add_condition"]]))
+    for j in range(6 if tier == "quick" else 40):
+        out.append(entry(f"nest-applied-gen-{j}", fr, [gen_nest_pipeline(rng, f"gen nest {j}")]))
     S = SEP_FILTERS
     two = RULES["simple"] + "---\n" + RULES["multi_fields"]
     out.append(entry("separate-them-host", two, separate=[S["them"], S["host"]]))
